@@ -1,8 +1,10 @@
 (* C05 — Output expressions expand to exactly the designated, uniquely aliased
    columns.  Property theorems only; proofs are in Proofs/. *)
+From Coq Require Import Permutation Sorted.
 From SQLair.Base Require Import Bytes.
-From SQLair.Model Require Import GenConsts Reflect TypeInfo Bind.
-From SQLair.Proofs Require Import BindFacts.
+From SQLair.Model Require Import GenConsts Reflect TypeInfo Parser Bind.
+From SQLair.Proofs Require Import BindFacts InsertProofs BindInputsProofs SortFacts
+  StructFieldsProofs BindTypesFacts ExampleData.
 
 (* The alias generated for output number n identifies n (markerIndex is a left
    inverse of markerName), so aliases of distinct outputs are distinct. *)
@@ -16,3 +18,120 @@ Print Assumptions C05_alias_unique.
 
 Example C05_alias_applies : marker_index (marker_name 12) = Some 12.
 Proof. vm_compute. reflexivity. Qed.
+
+(* (a) An output expression writes exactly its columns, comma separated, each
+   aliased with the next free output number, and appends its locators to the
+   outputs; nothing else changes. *)
+Theorem C05_write_output :
+  forall env m q ocs q',
+    add_to_query env m q (TOutput ocs) = BOk q' ->
+    q_sql q' = q_sql q ++
+      comma_list (map (fun '(i, c) => [TOut c (q_outputCount q + i)])
+                      (combine (seq 0 (length ocs)) (map fst ocs))) /\
+    q_outputCount q' = q_outputCount q + length ocs /\
+    q_outputs q' = q_outputs q ++ map snd ocs /\
+    q_named q' = q_named q /\ q_inputCount q' = q_inputCount q /\ q_argUsed q' = q_argUsed q.
+Proof. exact add_output_spec. Qed.
+Print Assumptions C05_write_output.
+
+(* Globally: the output columns of the SQL are exactly the columns of the
+   output expressions in textual order; their aliases are 0 .. k-1, each once,
+   in textual order; alias n belongs to the n-th output locator. *)
+Theorem C05_aliases :
+  forall env tbe args pq,
+    bind_inputs env tbe args = BOk pq ->
+    pq_outputs pq = map snd (out_cols tbe) /\
+    outs (pq_toks pq) = combine (map fst (out_cols tbe)) (seq 0 (length (pq_outputs pq))) /\
+    map snd (outs (pq_toks pq)) = seq 0 (length (pq_outputs pq)) /\
+    map fst (outs (pq_toks pq)) = map fst (out_cols tbe).
+Proof. exact bind_inputs_outputs. Qed.
+Print Assumptions C05_aliases.
+
+Example C05_aliases_applies :
+  exists pq, bind_inputs ex_env ex_query ex_args = BOk pq /\
+    outs (pq_toks pq) = [(s_id, 0); (s_name, 1)] /\
+    pq_outputs pq = [LField (ex_fld s_id); LField (ex_fld s_name)].
+Proof. eexists. split; [vm_compute; reflexivity|]. split; vm_compute; reflexivity. Qed.
+
+(* (b) sort.Strings: a sorted permutation w.r.t. the byte-lexicographic order,
+   which is a total order *)
+Theorem C05_sorted :
+  forall l, Permutation l (sort_strs l) /\ StronglySorted str_le (sort_strs l) /\
+            Sorted str_le (sort_strs l).
+Proof.
+  intros l. exact (conj (sort_strs_perm l) (conj (sort_strs_sorted l) (sort_strs_locally_sorted l))).
+Qed.
+Print Assumptions C05_sorted.
+
+Theorem C05_order_total :
+  (forall a, str_leb a a = true) /\
+  (forall a b, str_leb a b = true \/ str_leb b a = true) /\
+  (forall a b c, str_leb a b = true -> str_leb b c = true -> str_leb a c = true) /\
+  (forall a b, str_leb a b = true -> str_leb b a = true -> a = b).
+Proof. exact (conj str_leb_refl (conj str_leb_total (conj str_leb_trans str_leb_antisym))). Qed.
+Print Assumptions C05_order_total.
+
+(* &T.* / $T.*: exactly one member per db tag, in that order, each the field
+   carrying the tag; every field exactly once *)
+Theorem C05_all_members :
+  forall t fields,
+    has_dup_tag [] fields = false -> fields <> [] ->
+    exists ms,
+      get_all_struct_members (StructInfo t (sort_strs (map sf_tag fields)) fields) = BOk ms /\
+      map fst ms = sort_strs (map sf_tag fields) /\
+      Forall (fun '(tag, l) => exists f, l = LField f /\ In f fields /\ sf_tag f = tag) ms /\
+      Permutation (map snd ms) (map LField fields).
+Proof. exact all_members. Qed.
+Print Assumptions C05_all_members.
+
+Example C05_sorted_applies :
+  sort_strs (map sf_tag ex_fields) = [s_id; s_name; s_street; s_z] /\
+  has_dup_tag [] ex_fields = false /\ ex_fields <> [].
+Proof. split; [vm_compute; reflexivity|]. split; [vm_compute; reflexivity|]. vm_compute. discriminate. Qed.
+
+(* (c) a query has outputs iff some output expression has a column *)
+Theorem C05_has_outputs :
+  forall env tbe args pq,
+    bind_inputs env tbe args = BOk pq ->
+    (has_outputs pq = true <-> exists ocs, In (TOutput ocs) tbe /\ ocs <> []).
+Proof. exact bind_inputs_has_outputs. Qed.
+Print Assumptions C05_has_outputs.
+
+Example C05_has_outputs_applies :
+  exists pq, bind_inputs ex_env ex_query ex_args = BOk pq /\ has_outputs pq = true.
+Proof. eexists. split; vm_compute; reflexivity. Qed.
+
+(* (d) No wildcard survives in the generated columns: every column written for
+   an output expression is free of a trailing '*', i.e. it is not "*" and does
+   not end in ".*".  The star forms are expanded to db tags, and parseTag
+   accepts no tag ending in '*' (a quoted tag such as "*" keeps its quotes). *)
+Theorem C05_no_wildcard :
+  forall env b raw cols targets b',
+    wf_infos (b_infos b) ->
+    Forall (fun c => columnName c = star \/ no_star_end (columnName c)) cols ->
+    Forall (fun t => mname t = star \/ no_star_end (mname t)) targets ->
+    bind_expr env b (Output raw cols targets) = BOk b' ->
+    exists ocs, b_infos b' = b_infos b /\ b_exprs b' = b_exprs b ++ [TOutput ocs] /\
+                Forall clean_oc ocs.
+Proof. exact output_no_wildcard. Qed.
+Print Assumptions C05_no_wildcard.
+
+Theorem C05_no_star_end_means :
+  forall s, no_star_end s -> s <> [42%N] /\ forall p, s <> p ++ [46%N; 42%N].
+Proof. exact no_star_end_spec. Qed.
+Print Assumptions C05_no_star_end_means.
+
+Theorem C05_tag_never_star :
+  forall raw name omit, parse_tag raw = BOk (name, omit) -> no_star_end name.
+Proof. exact parse_tag_last. Qed.
+Print Assumptions C05_tag_never_star.
+
+(* "p.* AS &Person.*" *)
+Example C05_no_wildcard_applies :
+  exists infos b',
+    generate_arg_info ex_env [Some 0] [] = BOk infos /\
+    bind_expr ex_env {| b_infos := infos; b_used := []; b_outused := []; b_exprs := [] |}
+      (Output [] [BasicCol [112%N] star] [{| tname := [80%N]; mname := star |}]) = BOk b' /\
+    map (fun e => match e with TOutput ocs => map fst ocs | _ => [] end) (b_exprs b') =
+      [[[112; 46; 105; 100]; [112; 46; 110; 97; 109; 101]; [112; 46; 115; 116]; [112; 46; 122]]]%N.
+Proof. eexists. eexists. split; [vm_compute; reflexivity|]. split; vm_compute; reflexivity. Qed.
